@@ -557,6 +557,12 @@ func (rn *runner) streamArith(g *gen, opList []string, extreme bool) {
 		op := opList[g.r.Intn(len(opList))]
 		def := ctxOps[op]
 		c := g.ctx(def.p0, extreme)
+		switch op {
+		case "quantize", "rtie", "rtiv", "ceil", "floor", "quoint", "rem":
+			if g.r.Intn(8) == 0 {
+				g.narrow(c)
+			}
+		}
 		var x, y *apd.Decimal
 		var iarg int32
 		switch {
